@@ -84,6 +84,67 @@ def selected(tree, root, o):
     return out
 
 
+def followed_name(tree, path):
+    e = tree.get(path)
+    if e is not None and e["link"] and e["alt"] is not None:
+        return name(e["alt"])
+    return name(path)
+
+
+def has_name_tie(tree):
+    for p, e in tree.items():
+        if not e["files"]:
+            continue
+        ns = [followed_name(tree, join(p, n)) for n in e["files"]]
+        if len(set(ns)) != len(ns):
+            return True
+    return False
+
+
+def sequence(tree, root, o):
+    """the exact item sequence of a name-sorted traversal (links followed or not), as a list of ('ok', path) / ('err', kind)"""
+    out = []
+
+    def key(p, n):
+        c = tree.get(join(p, n))
+        fn = followed_name(tree, join(p, n)) if o["follow"] else n
+        g = 0
+        if c is not None and o["df"]:
+            g = 0 if c["dir"] else 1
+        elif c is not None and o["ff"]:
+            g = 1 if c["dir"] else 0
+        return (g, (b"" if fn is None else b"\x01" + fn.encode()))
+
+    def visit(path, depth, stack):
+        e = tree.get(path)
+        if e is None:
+            return
+        here = path
+        if o["follow"] and e["link"] and e["alt"] is not None:
+            here = e["alt"]
+        enter = e["dir"] and ((not e["link"]) or o["follow"])
+        if enter and e["link"] and here in stack:
+            out.append(("err", "E:LinkLooping"))
+            return
+        passes = e["file"] if o["files"] else (e["dir"] if o["dirs"] else True)
+        sel = depth >= o["min"] and passes
+        late = sel and e["dir"] and o["cf"]
+        descend = enter and (o["max"] is None or depth < o["max"])
+        if descend and tree.get(here) is None:
+            out.append(("err", "E:DoesNotExist"))
+            return
+        if sel and not late:
+            out.append(("ok", here))
+        if descend:
+            t = tree.get(here)
+            for n in sorted(t["files"] or [], key=lambda n: key(here, n)):
+                visit(join(here, n), depth + 1, stack + [here])
+        if late:
+            out.append(("ok", here))
+    visit(root, 0, [])
+    return out
+
+
 def check(tree, root, optstr, observed):
     """observed: list of hex paths / 'E:Kind'.  Returns None when fine, else a reason."""
     o = parse_opts(optstr)
@@ -99,7 +160,13 @@ def check(tree, root, optstr, observed):
     if want != got:
         return "yields %s, the options denote %s" % (got[:12], want[:12])
     if o["follow"]:
-        return None            # order relations are stated over the traversal tree; with links only the multiset is checked
+        # with links followed the order is checked only when it is determined: a name sort is installed and no directory has two children
+        # that carry the same name once links are followed (a followed link is named by its target; ties are left in HashSet order)
+        if o["sort"] and not has_name_tie(tree):
+            exp = sequence(tree, root, o)
+            if exp != obs:
+                return "order with links followed: yields %s, the options denote %s" % (obs[:12], exp[:12])
+        return None
     pos = {}
     for i, (k, v) in enumerate(obs):
         if k == "ok":
